@@ -117,10 +117,12 @@ def _stable(build):
                 tmp = d / (dst.name + ".tmp%d" % __import__("os").getpid())
                 shutil.copy2(exe, tmp)
                 tmp.replace(dst)
+            __import__("os").utime(dst)
             old = sorted(d.iterdir(), key=lambda p: p.stat().st_mtime)
             for p in old[:-12]:
                 try:
-                    p.unlink()
+                    if time.time() - p.stat().st_mtime > 3600:     # never what a concurrent run may be using
+                        p.unlink()
                 except OSError:
                     pass
             return dst
@@ -176,6 +178,18 @@ PROBES = {
     "e": ["cfg kind=us al=1 sc=0 addr=3", "rx 105b035e16"],
     # f: variable frame whose L leaves no room for the address field
     "f": ["cfg kind=us al=1 sc=0 addr=67", "rx 68010168434316"],
+    # g: a link test requested by the application while user data waits for its confirmation
+    #    unbalanced: the confirmation must take the message (not: the same message again as a new frame)
+    "g_unb": ["cfg kind=up al=1 sc=0 slaves=1", "run", "rx 100b010c16", "rx 1000010116", "send a=1 aabbcc", "run", "test a=1", "rx 1000010116", "run"],
+    #    unbalanced: a test request is served by ONE test frame, then the waiting message goes out
+    "g_unb2": ["cfg kind=up al=1 sc=0 slaves=1", "run", "rx 100b010c16", "rx 1000010116", "test a=1", "run", "rx 1000010116", "send a=1 aabbcc", "run", "run"],
+    #    balanced: the retransmission after the acknowledgement timeout must be the user data frame, not a test frame with its bit
+    "g_bal": ["cfg kind=bal al=1 sc=0 addr=1 other=2 dir=1", "run", "rx 100b020d16", "rx 1000020216", "send aabbcc", "run", "test", "tick 250"],
+    # h: "service not implemented" answers a class 2 request: the service is over (no repetition, no link error)
+    "h": ["cfg kind=up al=1 sc=0 slaves=1", "run", "rx 100b010c16", "rx 1000010116", "poll2 a=1", "run", "rx 100f011016", "tick 250", "tick 250", "tick 250", "tick 250", "tick 250"],
+    # i: unbalanced secondary, a frame with FCV = 1 whose service is not implemented (link test with the expected FCB),
+    #    then a NEW class 2 request (next FCB) while data is waiting: must be answered with the waiting data
+    "i": ["cfg kind=us al=1 sc=0 addr=1", "rx 1040014116", "enq2 0102030405060708", "rx 107b017c16", "enq2 1112131415161718", "rx 1052015316", "rx 107b017c16"],
 }
 PROBE_D = ["cfg mode=unb al=1 sc=1 slaves=1", "step m", "step s1", "step m", "step s1", "step m", "poll s1", "lose 5", "step m",
            "inject m 68030368080b0a1d16", "step m"]
@@ -207,6 +221,25 @@ def probe(ck=None):
         bad["e"] = "unbalanced secondary answers the first request (unexpected FCB) with %d octets of uninitialised user data" % (len(t[0]) - 8)
     if txs(r["f"]["out"]):
         bad["f"] = "frame 68010168434316 (L=1, no room for the address) is acknowledged with " + txs(r["f"]["out"])[0].hex()
+    t = txs(r["g_unb"]["out"])
+    nud = [f for f in t if f[0] == 0x68]
+    if len(nud) != 1:
+        bad["g_unb"] = "unbalanced primary: link test requested while user data waits for its confirmation: after the confirmation the message is sent again as a new frame (%s)" % " ".join(f.hex() for f in nud)
+    t = txs(r["g_unb2"]["out"])
+    if len([f for f in t if f[0] == 0x10 and f[1] & 0x0F == 2]) != 1 or not any(f[0] == 0x68 for f in t):
+        bad["g_unb2"] = "unbalanced primary: one link test request produces %d test frames and the waiting message is %s" % (
+            len([f for f in t if f[0] == 0x10 and f[1] & 0x0F == 2]), "sent" if any(f[0] == 0x68 for f in t) else "never sent")
+    t = txs(r["g_bal"]["out"])
+    if len(t) < 2 or t[-1][0] != 0x68 or t[-1] != [f for f in t if f[0] == 0x68][0]:
+        bad["g_bal"] = "balanced primary: link test requested while user data waits for its confirmation: the retransmission is %s instead of the user data frame" % (t[-1].hex() if t else "-")
+    ho = r["h"]["out"]
+    k = max(i for i, l in enumerate(ho) if l.startswith("rxmsg"))
+    if any(l.startswith(("tx 105b", "tx 107b", "ls a=1 1")) for l in ho[k:]):
+        bad["h"] = "unbalanced primary: a class 2 request answered with `service not implemented` is repeated and the link is reported in error"
+    t = [f for f in txs(r["i"]["out"]) if f[0] == 0x68]
+    if len(t) != 2 or t[0] == t[1]:
+        bad["i"] = ("unbalanced secondary: after a link test frame (FCV = 1, answered `service not implemented`) the next new class 2 request is taken "
+                    "for a repetition: answered with %s" % (t[-1].hex() if t else "no data"))
     if any("NULL" in l for l in rd["d"]["out"]):
         bad["d"] = "master ASDU handler called with asdu == NULL for 3 octets of user data"
     for k in list(r) + ["d"]:
@@ -219,6 +252,12 @@ def probe(ck=None):
     for l in "bcdef":
         if l not in bad:
             fix += l
+    if not any(k in bad for k in ("g_unb", "g_unb2", "g_bal")):
+        fix += "g"
+    if "h" not in bad:
+        fix += "h"
+    if "i" not in bad:
+        fix += "i"
     return fix, bad, dict(r, d=rd["d"])
 
 
